@@ -27,6 +27,10 @@ type Lowerer struct {
 	registry *registry.TypeRegistry   // Deduplicates types
 	types    map[string]ir.TypeHandle // Named type lookup
 
+	// structAlign records the alignment of each lowered struct (max member
+	// alignment including explicit @align attributes).
+	structAlign map[ir.TypeHandle]uint32
+
 	// Variable resolution
 	globals           map[string]ir.GlobalVariableHandle
 	locals            map[string]ir.ExpressionHandle
@@ -733,7 +737,13 @@ func (l *Lowerer) lowerStruct(s *parser.StructDecl) error {
 	}
 	// Round struct size up to alignment of largest member
 	structSize := (offset + maxAlign - 1) &^ (maxAlign - 1)
-	l.registerNamedType(s.Name, ir.StructType{Members: members, Span: structSize})
+	handle := l.registerNamedType(s.Name, ir.StructType{Members: members, Span: structSize})
+	// Remember the alignment: it depends on @align attributes, which the IR
+	// struct does not record, and enclosing types need it for their own layout.
+	if l.structAlign == nil {
+		l.structAlign = make(map[ir.TypeHandle]uint32)
+	}
+	l.structAlign[handle] = maxAlign
 	return nil
 }
 
@@ -826,6 +836,9 @@ func (l *Lowerer) typeAlignmentAndSize(handle ir.TypeHandle) (align, size uint32
 
 	case ir.StructType:
 		// Struct alignment is the max of its members, size is pre-calculated
+		if align, ok := l.structAlign[handle]; ok {
+			return align, t.Span
+		}
 		var maxMemberAlign uint32 = 1
 		for _, member := range t.Members {
 			memberAlign, _ := l.typeAlignmentAndSize(member.Type)
